@@ -3,11 +3,15 @@
    Model/NilMatrix.v from the conversion tables regenerated from /repo (Gen/Conv.v) and compared cell by
    cell with the real code by the harness (exhaustive).  Gen/Helpers.v lists every exported function and
    method with an item parameter: a new one without a matrix row breaks C20_helpers_covered.
-   PARTIAL: the embedded part (nil-like values as list members / properties at arbitrary depth) is
-   exercised exhaustively at depth 1 by the harness; the unbounded statement needs the walker models
-   (Flatten, Recip, Equal, Clean, JsonEnc) and is stated in their property files. *)
+   Embedded part (nil-like values as list members / properties at ARBITRARY depth): theorems over the walker
+   models - the JSON encoder (Model/JsonEnc.v, for every write table satisfying the decidable condition
+   nil_transparent, instantiated with the regenerated Gen/JsonW.v), Clean, the Flatten family, Recipients,
+   ItemsEqual - in the second half of this file; correspondence of these models on values with nil-like items
+   planted at depth 1-3 by harness/c20.go (case files Cases_C20_deep). *)
 From AP.Model Require Import Prelude Vocab Bytes Pred Layout Views Conv NilMatrix.
-From AP.Gen Require Import Conv Helpers.
+From AP.Model Require Import IriEq Recip Flatten Clean CleanGen Equal JsonTables JsonEnc JsonCodec NilEmbed.
+From AP.Gen Require Import Conv Helpers JsonW.
+From AP.Proofs Require Import RecipP FlattenP FlattenIdemP CleanP EqualP NilEncP NilWalkP NilEqualP.
 
 Definition nils : list item := INil :: map ITNil all_kinds.
 
@@ -96,3 +100,190 @@ Example C20_example :
   nil_matrix conv_tables (B "ToActivity") INil = mk_nil_out NNeutral CbNone /\
   nil_matrix conv_tables (B "OnLink") (ITNil KObject) = mk_nil_out NError CbNone.
 Proof. repeat split; vm_compute; reflexivity. Qed.
+
+(* ================================================================== the embedded part, at any depth ===== *)
+(* Vocabulary (Model/NilEmbed.v).  nilify x: x with every typed nil pointer inside, at any depth, replaced by
+   the untyped nil.  erases x x': x' is x with some nil-like items (at any depth) turned into the untyped nil
+   or their property removed altogether; it is the largest relation that unfolds to itself through `shape`
+   (same constructor, same scalars, properties related one by one where a property holding a nil-like item on
+   the left may be absent on the right, lists related member by member).  erase1 / erase_star: the same spelled
+   out one nil-like item at a time, as an inductive relation over one-hole contexts. *)
+
+(* the relation contains what it should *)
+Theorem C20_erases_rules :
+  (forall a, nil_like a = true -> erases a INil) /\
+  (forall x, erases x x) /\
+  (forall p k fs fs', (forall f, orel erases (getf f fs) (getf f fs')) -> erases (IObj p k fs) (IObj p k fs')) /\
+  (forall p l l', lrel erases l l' -> erases (IItems p l) (IItems p l')) /\
+  (forall x, erases x (nilify x)) /\
+  (forall x x', erase1 x x' -> erases x x').
+Proof. exact (conj er_nil (conj erases_refl (conj er_obj (conj er_items (conj erases_nilify erase1_erases))))). Qed.
+(* ... and nothing else: an erasure keeps every constructor, scalar, list length and non-nil-like property *)
+Theorem C20_erases_unfold : forall x x', erases x x' -> shape erases x x'.
+Proof. exact erases_unfold. Qed.
+
+(* ---- JSON encoder ---- *)
+(* the table condition, on the write tables regenerated from the source on this run: every statement guarded by
+   `x.F != nil` writes F itself through a writer that gives up on a foreign value, and folds the item writer's
+   "nothing written" report with || *)
+Theorem C20_enc_tables : nil_transparent jw_tables = true.
+Proof. vm_compute. reflexivity. Qed.
+
+(* for EVERY table with that property, for ALL values: erasing nil-like items anywhere inside does not change
+   the bytes - a nil-like item at any depth is written exactly as an unset property / the untyped nil *)
+Theorem C20_enc_embedded_generic : forall tbls, nil_transparent tbls = true ->
+  forall x x' b, erases x x' -> marshal_json tbls x = Some b -> marshal_json tbls x' = Some b.
+Proof. exact marshal_json_erases. Qed.
+
+Theorem C20_enc_embedded : forall x x' b, erases x x' -> enc x = Some b -> enc x' = Some b.
+Proof. exact (marshal_json_erases jw_tables C20_enc_tables). Qed.
+
+(* typed nil pointers anywhere = untyped nils *)
+Theorem C20_enc_typed_nil : forall x b, enc x = Some b -> enc (nilify x) = Some b.
+Proof. exact (marshal_json_nilify jw_tables C20_enc_tables). Qed.
+
+(* one at a time, in any order, at any depth: un-typing a nil pointer, dropping a property that holds a
+   nil-like item, inside properties, lists in properties and lists *)
+Theorem C20_enc_one_at_a_time : forall x x', erase_star x x' -> forall b, enc x = Some b -> enc x' = Some b.
+Proof. exact (marshal_json_erase_star jw_tables C20_enc_tables). Qed.
+
+(* a property holding a nil-like item is written as if it were unset (top level of any struct; deeper by
+   C20_enc_one_at_a_time) *)
+Theorem C20_enc_unset : forall p k fs f n b, getf f fs = Some (FItem n) -> nil_like n = true ->
+  enc (IObj p k fs) = Some b -> enc (IObj p k (delf f fs)) = Some b.
+Proof.
+  intros p k fs f n b G Hn. apply (marshal_json_erases jw_tables C20_enc_tables).
+  apply erase1_erases. exact (e1_drop p k fs f n G Hn).
+Qed.
+
+(* the encoder's fuel does not matter beyond the size of the value (used above; also of use to C01/C02) *)
+Theorem C20_enc_fuel : forall tbls, nil_transparent tbls = true -> forall f f' x b,
+  (item_size x < f)%nat -> (item_size x < f')%nat -> enc_item tbls f x = Some b -> enc_item tbls f' x = Some b.
+Proof. exact enc_fuel_indep. Qed.
+
+(* the condition is not vacuous in the other direction: a table whose item writer is folded with = instead of ||
+   violates it, and the encoder model then tells a typed nil property from an unset one *)
+Definition bad_tables : list (bytes * bool * list wstmt) :=
+  [ (B "Object_MarshalJSON", false,
+     [WProp (B "id") (B "JSONWriteIRIProp") [F_ID] (B "") [] AccOr (B "");
+      WProp (B "icon") (B "JSONWriteItemProp") [F_Icon] (B "") [GNeNil F_Icon] AccSet (B "")]) ].
+Theorem C20_enc_condition_needed :
+  nil_transparent bad_tables = false /\
+  marshal_json bad_tables (IObj true KObject [(F_ID, FStr (B "http://x")); (F_Icon, FItem (ITNil KObject))]) = Some [] /\
+  marshal_json bad_tables (IObj true KObject [(F_ID, FStr (B "http://x"))]) = Some (B "{""id"":""http://x""}").
+Proof. repeat split; vm_compute; reflexivity. Qed.
+
+(* ---- Clean / CleanRecipients ---- *)
+(* for ANY walk table: the walk does the same to a value whether its nil-like parts are typed or untyped *)
+Theorem C20_clean_embedded_generic : forall W x, clean_item W (nilify x) = omap nilify (clean_item W x).
+Proof. exact clean_nilify. Qed.
+Theorem C20_clean_embedded : forall x, clean_m (nilify x) = omap nilify (clean_m x).
+Proof. intro x. apply clean_nilify. Qed.
+Theorem C20_clean_no_panic : forall x, exists y, clean_m x = Ok y.
+Proof. intro x. exists (strip x). exact (clean_refines_strip gen_walk_tables ltac:(vm_compute; reflexivity) x). Qed.
+(* a property holding a nil-like item is left as it is, a nil-like list member comes out as the untyped nil *)
+Theorem C20_clean_nil_like : forall tbl n, nil_like n = true -> walk_item tbl n = n /\ walk_entry tbl n = INil.
+Proof. exact walk_nil_like. Qed.
+
+(* ---- Flatten family ---- *)
+(* Flatten{Object,Actor,IntransitiveActivity,Activity}Properties on ANY value - nil-like items in properties and
+   lists, lists in lists, at any depth - end in a value or in the model's "unmodelled collection view" error,
+   never in a panic; the only hypothesis is C16's: the ids the de-duplications compare lie in a set on which the
+   comparison is symmetric and transitive *)
+Theorem C20_flatten_embedded : forall (eqv : bytes -> bytes -> bool) (D : bytes -> Prop),
+  (forall a b, D a -> D b -> eqv a b = eqv b a) ->
+  (forall a b c, D a -> D b -> D c -> eqv a b = true -> eqv b c = true -> eqv a c = true) ->
+  forall k fs, (forall s, In s (steps_of k) -> keys_in D s (getf (step_fid s) fs)) ->
+  (exists fs', flatten_fields eqv k fs = Ok fs') \/ flatten_fields eqv k fs = Err.
+Proof. exact flatten_fields_no_panic. Qed.
+(* a nil-like item is not turned into anything, takes no part in the de-duplication, and Flatten of it is nil *)
+Theorem C20_flatten_nil_like : forall n, nil_like n = true ->
+  flat_item n = n /\ key_of n = None /\ forall eqv, flatten eqv n = Ok INil.
+Proof.
+  intros n Hn. destruct (flat_item_nil_like n Hn) as [A B]. repeat split; auto.
+  intro eqv. apply flatten_nil_like. exact Hn.
+Qed.
+
+(* ---- Recipients ---- *)
+(* the part before the de-duplication (the Block clause of Activity.Recipients) is total on every value; the
+   de-duplication then ends in a value under C10's hypothesis on the ids; no entry of any list can make the scan
+   panic (C10_no_panic), a nil-like entry contributes no id *)
+Theorem C20_recipients_embedded : forall (eqv : bytes -> bytes -> bool) (D : bytes -> Prop),
+  (forall a b, D a -> D b -> eqv a b = eqv b a) ->
+  (forall a b c, D a -> D b -> D c -> eqv a b = true -> eqv b c = true -> eqv a c = true) ->
+  forall k fs, has_recipients k = true ->
+  exists fs1, recip_pre eqv k fs = Ok fs1 /\
+    (Forall D (scan_order (scan_lists k fs1)) -> exists r x', recipients eqv (IObj true k fs) = Ok (r, x')).
+Proof. exact recipients_total. Qed.
+Theorem C20_recipients_nil_like : forall n l, nil_like n = true ->
+  is_ok (entry_key n) = true /\ keys_of (n :: l) = keys_of l.
+Proof. intros n l Hn. split; [apply entry_key_ok|apply keys_of_nil_like; exact Hn]. Qed.
+
+(* ---- ItemsEqual ---- *)
+(* for ALL pairs of values, nil-like items at any depth included: comparison ends in an answer - no panic - and a
+   nil-like item equals exactly the nil-like items (Props/C09.v) *)
+Theorem C20_equality_embedded : forall x y,
+  (exists b, ieq x y = Ok b) /\
+  (nil_like x = true -> (is_nil y = true -> ieq x y = Ok true) /\ (is_nil y = false -> ieq x y = Ok false /\ ieq y x = Ok false)).
+Proof.
+  intros x y. split; [apply ieq_no_panic|]. intro Hn. apply ieq_nil. apply nil_like_is_nil. exact Hn.
+Qed.
+(* a typed nil pointer anywhere inside compares as the untyped nil: two values that agree once their typed nil
+   pointers are made untyped are equal; in particular every value equals its untyped twin, in both orders.
+   (Equality does NOT treat a typed nil property as ABSENT, by design of the with-driven comparison:
+   `if w.F != nil { ItemsEqual(o.F, w.F) }` passes a typed nil w.F, which then equals only a nil-like o.F,
+   whereas an unset w.F is not compared at all - Appendix A, reading of C09.  So the statement is about nilify,
+   not about erases.) *)
+Theorem C20_equality_typed_nil_generic : forall a b, nilify a = nilify b -> ieq a b = Ok true.
+Proof. exact ieq_nsame. Qed.
+Theorem C20_equality_typed_nil : forall x, ieq x (nilify x) = Ok true /\ ieq (nilify x) x = Ok true.
+Proof. exact ieq_nilify. Qed.
+
+(* ---- non-vacuity: a value with typed nil pointers at depth 1, 2 and 3 (property, list member, one-member list in
+   an item property, Endpoints entry) ---- *)
+Definition a20 := B "https://example.com/actors/alice".
+Definition ex20_actor : item :=
+  IObj true KActor [(F_ID, FStr a20); (F_Type, FStr (B "Person")); (F_Icon, FItem (ITNil KObject));
+                    (F_Inbox, FItem (ITNil KOrdered));
+                    (F_Endpoints, FEndpoints (Some [(F_SharedInbox, ITNil KObject); (F_UploadMedia, IIri false (B "https://example.com/up"))]))].
+Definition ex20_note : item :=
+  IObj true KObject [(F_ID, FStr (B "https://example.com/notes/1")); (F_Type, FStr (B "Note"));
+                     (F_AttributedTo, FItem (IItems false (Some [ITNil KActor; ex20_actor])));
+                     (F_Tag, FItems (Some [ITNil KLink; INil; IIri false (B "https://example.com/tags/x")]));
+                     (F_InReplyTo, FItem (IItems false (Some [ITNil KObject])));
+                     (F_Bto, FItems (Some [ITNil KActor]))].
+Definition ex20 : item :=
+  IObj true KActivity [(F_ID, FStr (B "https://example.com/activities/1")); (F_Type, FStr (B "Create"));
+                       (F_To, FItems (Some [IIri false a20; ITNil KActor; ex20_actor]));
+                       (F_Actor, FItem ex20_actor); (F_Target, FItem (ITNil KPlace)); (F_Object, FItem ex20_note)].
+
+Example C20_example_deep :
+  has_typed_nil ex20 = true /\ has_typed_nil (nilify ex20) = false /\
+  (exists b, enc ex20 = Some b /\ length b = 563%nat /\ enc (nilify ex20) = Some b) /\
+  (exists y, clean_m ex20 = Ok y /\ clean_m (nilify ex20) = Ok (nilify y)) /\
+  (exists r y, recipients_m ex20 = Ok (r, y)) /\
+  (exists fs', flatten_fields_m FKActivity (match ex20 with IObj _ _ fs => fs | _ => [] end) = Ok fs') /\
+  ieq ex20 (nilify ex20) = Ok true /\ ieq (nilify ex20) ex20 = Ok true.
+Proof.
+  split; [vm_compute; reflexivity|]. split; [vm_compute; reflexivity|].
+  split; [eexists; split; [vm_compute; reflexivity|split; vm_compute; reflexivity]|].
+  split; [eexists; split; vm_compute; reflexivity|].
+  split; [do 2 eexists; vm_compute; reflexivity|].
+  split; [eexists; vm_compute; reflexivity|].
+  split; vm_compute; reflexivity.
+Qed.
+
+(* dropping the typed-nil inbox of the actor two levels down, then un-typing the target: the bytes stay *)
+Example C20_example_steps :
+  erase_star ex20
+    (IObj true KActivity
+       (replf F_Target (FItem INil)
+          (replf F_Actor (FItem (IObj true KActor (delf F_Inbox (match ex20_actor with IObj _ _ fs => fs | _ => [] end))))
+             (match ex20 with IObj _ _ fs => fs | _ => [] end)))).
+Proof.
+  eapply es_step.
+  - apply (e1_field true KActivity _ F_Actor ex20_actor); [|reflexivity].
+    apply (e1_drop true KActor _ F_Inbox (ITNil KOrdered)); reflexivity.
+  - eapply es_step; [|apply es_refl].
+    apply (e1_field true KActivity _ F_Target (ITNil KPlace) INil); [apply e1_nil; reflexivity|reflexivity].
+Qed.
